@@ -90,11 +90,35 @@ class C15(E1Prop):
             ns = (r.sample(head, min(k, len(head))) +
                   r.sample(tail, min(fp['nmax'] - k, len(tail))))
             fp['plans'] = [{'kind': 'giterr', 'n': n} for n in sorted(ns)]
+            # ... and with somebody creating a branch of their own right
+            # before one of its git commands ("only touches its own PR")
+            for n in sorted(r.sample(range(ncmd), min(3, ncmd))):
+                fp['plans'].append({
+                    'kind': 'thirdparty', 'cmd': n, 'action': {
+                        'do': 'create_branch',
+                        'name': r.choice(['feature/tp-%d', 'bugfix/TP-%d',
+                                          'user/dave/x-%d']) % r.randrange(
+                                              1000),
+                        'base': None}})
         for plan in list(fp['plans']):
             def run(w_, plan=plan):
                 w_.on_job_done = lambda rec: self.check_job(w_, rec,
                                                             faulted=True)
                 recs = ops.op_eval(w_, dict(op, plan=dict(plan))) or []
+                refs = w_.refs()
+                for rec in recs[:1]:
+                    for tp in rec.get('third_party') or []:
+                        if tp.get('sha') and refs.get(tp['name']) != \
+                                tp['sha']:
+                            raise Violation(
+                                'C15', 'C15:reset-touched-other-refs:'
+                                'third-party-branch',
+                                'branch %s, created by somebody else while '
+                                'job %s (%s) was running, is %s afterwards '
+                                '(they left it at %s)' % (
+                                    tp['name'], rec['job'], rec['status'],
+                                    refs.get(tp['name']), tp['sha'][:10]),
+                                {})
                 return recs[0]['status'] if recs else None
             try:
                 st = w.fork_variant(run)
@@ -102,8 +126,11 @@ class C15(E1Prop):
                 fp['plans'] = [plan]
                 v.detail['plan'] = plan
                 raise
-            w._count_fault('giterr')
-            w.probe('reset-under-git-fault:%s' % st)
+            w._count_fault('giterr' if plan['kind'] == 'giterr'
+                           else 'thirdparty:create_branch@cmd')
+            w.probe('reset-under-%s:%s' % (
+                'git-fault' if plan['kind'] == 'giterr' else 'third-party',
+                st))
         return ops.apply_op(w, op)
 
     def manual_work(self, w, pr, refs):
